@@ -266,12 +266,21 @@ pub fn replay(path: &str) -> i32 {
         "C17" => return crate::c17::replay(&j),
         "C18" => return crate::c18::replay(&j),
         "C19" => return crate::c19::replay(&j),
+        "C13" => return crate::c13::replay(&j),
         _ => {}
     }
     let test: TestFn = match prop.as_str() {
         "C01" => crate::c01::test,
+        "C02" => crate::c02::test,
         "C03" => crate::c03::test,
         "C04" => crate::c04::test,
+        "C05" => crate::c05::test,
+        "C06" => crate::derived::test_c06,
+        "C07" => crate::derived::test_c07,
+        "C08" => crate::derived::test_c08,
+        "C09" => crate::derived::test_c09,
+        "C10" => crate::derived::test_c10,
+        "C11" => crate::derived::test_c11,
         "C12" => crate::c12::test,
         "C15" => crate::c15::test,
         _ => {
